@@ -406,7 +406,7 @@ func init() {
 			"'nothing was ready' is only asserted when poll(2) reports no ready descriptor with a deferred operation, no short timer is armed and no post is queued",
 			"RunPending non-termination is decided by a 30 s bound on work that takes microseconds",
 		},
-		NumCases: func(tier, build string) int { return vf.Tiered(tier, 600, 300000) },
+		NumCases: func(tier, build string) int { return vf.Tiered(tier, 3000, 300000) },
 		Floor:    func(tier string) int { return vf.Tiered(tier, 100, 500) },
 		Run:      runC03,
 	})
